@@ -1610,9 +1610,10 @@ class Preconditioner:
   def _preconds_for_grad(self, preconditioners, rank, start, end):
     """Returns a slice of preconditioners of length rank."""
     preconditioners_for_grad = preconditioners[start:end]
-    if self._preconditioner_type == PreconditionerType.INPUT:
+    if self._preconditioner_type == PreconditionerType.INPUT and rank > 1:
       # When _preconditioner_type is INPUT, we append a None value to the end of
-      # the list to handle the False index.
+      # the list to handle the False index (preconditioner types are ignored
+      # for rank <= 1, where every dim is preconditioned).
       preconditioners_for_grad = preconditioners_for_grad + [None]
     elif self._preconditioner_type == PreconditionerType.OUTPUT:
       # When _preconditioner_type is OUTPUT, we append (rank - 1) many None
